@@ -1,14 +1,14 @@
 SPECIFICATION Spec
 CONSTANTS
-  MaxOps = 4
+  MaxOps = 3
   SplitPairs = FALSE
   RenameTwice = FALSE
   NonRecDirs = FALSE
   NonRecCross = FALSE
   B2B = TRUE
   WithRoot = TRUE
-  InodeReuse = FALSE
-  StickyCreated = FALSE
+  InodeReuse = TRUE
+  StickyCreated = TRUE
   ViewSkipInCreatedRemoved = FALSE
   RecModes = {TRUE, FALSE}
 INVARIANT Xlat_ReplicaMatches
